@@ -42,12 +42,11 @@ const watchdog = 180 * time.Second
 // guarded calls
 
 type result struct {
-	acc   bool
-	err   error
-	pan   string // panic value, "" if none
-	site  string // first /repo frame of the panic
-	hang  bool
-	extra string
+	acc  bool
+	err  error
+	pan  string // panic value, "" if none
+	site string // first /repo frame of the panic
+	hang bool
 }
 
 func repoSite(stack string) string {
@@ -203,9 +202,10 @@ func (e *env) add(family, canon string, run func(t *task)) {
 }
 
 // judge applies the oracle to one negative case.
-//   key   – case signature without the outcome class
-//   what  – human description
-//   rec   – reproduction data
+//
+//	key   – case signature without the outcome class
+//	what  – human description
+//	rec   – reproduction data
 func (e *env) judge(t *task, key, what string, rec map[string]interface{}, res result) {
 	r := e.r
 	r.Count("evaluations", 1)
@@ -316,6 +316,12 @@ func Run(r *core.Run) {
 	}
 	e.mods = mods
 	e.ps = loadPsets()
+	r.Assume("soundness is decided only for the enumerated false-statement families and sizes (the property is universal over prover strategies); a negligible-probability acceptance by design (challenge = 0, all 13/80/128 iterations passing by chance) would be reported as a violation and has probability < 2^-13 only for a grinding prover, never for the single honest-algorithm runs used here")
+	r.Assume("harness provers reuse the library's hash functions (common.SHA512_256i, SHA512_256i_TAGGED, RejectionSample) and samplers; only the prover algorithms are copied, with the range masks chosen by the harness")
+	r.Assume("exact bound+1 responses need a zero secret (m = 0 for Alice, x = 0 or y = 0 for Bob) because the response e*secret+mask depends on the challenge; for the fac proof the harness uses the discrete logarithm between the vendored ring-Pedersen generators (known from the fixture) to re-solve the unbounded responses")
+	r.Assume("a library PROVER that panics, loops or errors on a bad witness is not a violation (the caller controls its own witness); it is counted in lib_prover_cannot_run and the harness prover is used instead")
+	r.Assume("Paillier key proof for a PRIME modulus is an observation, not a violation: gcd(N,phi(N)) = 1 and no factor below 1000 hold, so the statement is inside that proof's language; the statement lists 'prime' for the mod proof, which is checked as must-reject")
+	r.Assume("bad moduli are 2048-bit numbers constructed deterministically from core.Bytes labels (testdata/moduli.json, regenerated by `C11_GEN=1 go test ./checks/c11 -run TestGenModuli`) and structurally re-validated at start (products, bit lengths, congruences, gcd(N,phi), primality of all factors)")
 
 	e.schnorrTasks()
 	e.paillierGuardTasks()
